@@ -204,10 +204,10 @@ func (st *State) heapGet(key, sort string) *Term {
 		if strings.HasPrefix(sort, "(Array Int (Array Int ") {
 			i := BoundVar("wf_i", SInt)
 			x := Select(Select(t, r), i)
-			st.assume(Forall([]*Term{r, i}, And(Ge(x, IntLit(0)), Lt(x, bound)), x))
+			st.assume(Forall([]*Term{r, i}, Implies(And(Ge(r, IntLit(0)), Lt(r, bound)), And(Ge(x, IntLit(0)), Lt(x, bound))), x))
 		} else if sort == arrSort(SInt, SInt) {
 			x := Select(t, r)
-			st.assume(Forall([]*Term{r}, And(Ge(x, IntLit(0)), Lt(x, bound)), x))
+			st.assume(Forall([]*Term{r}, Implies(And(Ge(r, IntLit(0)), Lt(r, bound)), And(Ge(x, IntLit(0)), Lt(x, bound))), x))
 		}
 	}
 	return t
